@@ -5,12 +5,13 @@ package main
 import (
 	"fmt"
 	"math/big"
+	"sync"
 
-	"github.com/NethermindEth/juno/core/crypto"
 	"github.com/NethermindEth/juno/core/felt"
 )
 
-// evalTerm evaluates a hash term printed by the Lean driver with the REAL primitives:
+// evalTerm evaluates a hash term printed by the Lean driver with the INDEPENDENT primitives of
+// refhash.go (not with core/crypto):
 //
 //	f<hex> | P(a,b) Pedersen | S(a,b) Poseidon | T(a,b,c) PoseidonElems | A(t,<hex>) felt addition
 type termParser struct {
@@ -18,7 +19,32 @@ type termParser struct {
 	pos int
 }
 
+var (
+	termCacheMu sync.Mutex
+	termCache   = map[string]felt.Felt{}
+)
+
+// evalTerm memoises whole answers: the models of one history usually print the same root term.
 func evalTerm(s string) (felt.Felt, error) {
+	termCacheMu.Lock()
+	if v, ok := termCache[s]; ok {
+		termCacheMu.Unlock()
+		return v, nil
+	}
+	termCacheMu.Unlock()
+	v, err := evalTermUncached(s)
+	if err == nil {
+		termCacheMu.Lock()
+		if len(termCache) > 50000 {
+			termCache = map[string]felt.Felt{}
+		}
+		termCache[s] = v
+		termCacheMu.Unlock()
+	}
+	return v, err
+}
+
+func evalTermUncached(s string) (felt.Felt, error) {
 	p := &termParser{s: s}
 	v, err := p.term()
 	if err != nil {
@@ -95,9 +121,9 @@ func (p *termParser) term() (felt.Felt, error) {
 			return felt.Felt{}, err
 		}
 		if c == 'P' {
-			return crypto.Pedersen(&a, &b), nil
+			return indPedersen(&a, &b), nil
 		}
-		return crypto.Poseidon(&a, &b), nil
+		return indPoseidon(&a, &b), nil
 	case 'T':
 		if err := p.expect('('); err != nil {
 			return felt.Felt{}, err
@@ -117,7 +143,7 @@ func (p *termParser) term() (felt.Felt, error) {
 				return felt.Felt{}, err
 			}
 		}
-		return crypto.PoseidonElems(&xs[0], &xs[1], &xs[2]), nil
+		return indPoseidonElems(&xs[0], &xs[1], &xs[2]), nil
 	case 'A':
 		if err := p.expect('('); err != nil {
 			return felt.Felt{}, err
